@@ -56,8 +56,11 @@ def strategy(tier, shard):
             # discount factors next to 1 on finite-horizon MDPs (value iteration becomes exactly stationary after nS sweeps,
             # so the run converges however small eps (1-gamma)/gamma is)
             gamma = draw(st.sampled_from([0.999, 0.99999, 0.9999999]))
-            eps = float(scale * draw(st.sampled_from([1e-2, 1e-1, 1.0])))
-            spec = draw(mdp_specs(max_states=10, min_states=2, scale=scale, chain="dag", structure=False, allow_v0=False))
+            # epsilon above any single reward (<= 10.5 scale): every sweep changes the values by less than epsilon, so a
+            # threshold without the (1-gamma)/gamma factor stops at once, while the accumulated value of a long path
+            # (up to nS * 10 scale) exceeds the bound epsilon
+            eps = float(scale * draw(st.sampled_from([1e-1, 1.0, 12.0, 20.0, 20.0])))
+            spec = draw(mdp_specs(max_states=12, min_states=6, scale=scale, chain="dag", structure=False, allow_v0=False))
             spec["flags"] = spec["flags"] + ["finite-horizon-gamma-near-1"]
             cfg = dict(solver=kind, gamma=gamma, eps=eps, test=draw(st.sampled_from(["span", "max_diff"])),
                        mbs=draw(st.integers(1, spec["nS"] + 3)))
